@@ -89,7 +89,10 @@ def scenario_for(seed, index, tier):
                 else ['A', 'B', 'C'])[index % 3]
     else:
         origin, state = rng.choice(ORIGINS)
-        final = rng.choice(FINALS + ['raise:B'])
+        # 'disconnect-slow': a final handler that gives up - it calls
+        # disconnect() (also on a session an earlier handler has just
+        # started), takes its time, and returns
+        final = rng.choice(FINALS + ['raise:B', 'disconnect-slow'])
         proto = common.pick_proto(rng, sup)
         # OSError family only from incoming listeners: in the write phase
         # pyCraft deliberately treats I/O errors differently (they are held
@@ -331,6 +334,10 @@ def execute(scenario, tape):
         else:
             def final(e, info):
                 st['calls'].append(('final', label(e), info[1] is e))
+                if f == 'disconnect-slow':
+                    st['final_disconnect'] = w.api('disconnect',
+                                                   conn.disconnect)
+                    w.sleep(120000)
                 if f.startswith('raise:'):
                     ne = CLS[f.split(':')[1]]('from final')
                     label(ne, 'F')
@@ -541,6 +548,18 @@ def check(scenario, w, st, res, ids):
                       {'conns': len(apps)}))
         elif st['exits'] <= st['exits_before_again']:
             V.append(('C14/reconnect-afterwards-no-clean-exit', None))
+    elif scenario['final'] == 'disconnect-slow':
+        # the final handler closed what the earlier handler had opened
+        ob(2)
+        fd = st.get('final_disconnect')
+        if fd is not None and not fd.ok:
+            V.append(('C14/disconnect-in-final-handler-raised',
+                      repr(fd.exc)[:120]))
+        # (the faulted connection's own socket is simply dropped when a
+        # handler reconnects - CPython closes it when it is collected)
+        if any(not a.fin_seen for a in apps[1:]):
+            V.append(('C14/connection-left-open', {'conns': len(apps)}))
+        res.probes['final-handler-closed-the-handler-s-reconnect'] = 1
     else:
         ob()
         if len(apps) < 2 or not any(a.reached_play for a in apps[1:]):
